@@ -36,7 +36,7 @@ for sd in sorted(os.listdir(os.path.join(ROOT, 'seeded'))):
 head = ['# Seeded changes: results of `tools/run_seeds.sh` on the current tree', '',
         'Each change was produced by a fresh sub-agent that saw only the property text and its own scratch worktree; each passes the baseline suite and',
         'comes with a demo (`demo.py`) that fails with the change and passes without it (re-confirmed with `tools/confirm_seed.sh`). Round 1 = `-a` (made against',
-        'the pinned tree, five patches rebased after repository fixes: `patch.orig.diff` kept), round 2 = `-b` (made against the repaired tree).', '',
+        'the pinned tree, five patches of round 1 rebased after repository fixes: `patch.orig.diff` kept), round 2 = `-b` (made against the repaired tree).', '',
         '| seed | prop | change | verdict of `./check <prop> --tier quick` on the changed tree |', '|---|---|---|---|']
 open(os.path.join(ROOT, 'seeded', 'RESULTS.md'), 'w').write('\n'.join(head + rows) + '\n')
 print('\n'.join(["| seed | change (abridged) | result of the property's quick check on the changed tree |", '|---|---|---|'] + short))
